@@ -109,6 +109,17 @@ DESC = {
  "C16-7": ("shape_name of an Object feeds only the first 50 member types into the checksum", "two 51-member objects differing in the last member's type: one name, defined twice"),
  "C13-5": ("create_subtype returns silently beyond MAX_SUBTYPE_DEPTH = 100", "composite nesting of 102 levels or more"),
  "C14-6": ("directly nested arrays rendered by a loop that applies the Option flags in reverse order", "array of arrays whose sequence of optional flags is not a palindrome"),
+ # ---- round 5 (fresh sub-agents; NO numeric thresholds allowed: rare non-numeric features only)
+ "C01-6": ("Array+Array fast path: an accumulated `Option<Array<Null>>` (how `[]` looks) takes the incoming element type as is", "an all-null array plus a bare null (same shape as `[]`+null), then a non-empty array of another kind"),
+ "C08-8": ("Object+Object early return when the INCOMING object has no members", "`{}` arriving after a non-empty object at the same position"),
+ "C17-7": ("parse_member rejects an empty member name (`InvalidObjectKey`)", "a member whose name is the empty string"),
+ "C04-11": ("from_sources parses `source.trim_end()` (Unicode White_Space)", "from_sources only: a source ending in VT / FF / NEL / NBSP / U+2028 ..."),
+ "C07-7": ("parse_string: after a backslash the scanner skips the next character only when it is a quote", "a string or member name ending in an escaped backslash (`\\\\\"`)"),
+ "C05-9": ("member names with a backslash are decoded with `.expect(..)` instead of falling back to the spelling", "member name with an invalid escape: panic in every entry point"),
+ "C13-6": ("create_tuple's optional branch drops the tuple parentheses", "optional tuple at the ROOT (`null` next to mixed-array documents): `Option<f64, String>`"),
+ "C15-6": ("field names: every non-ASCII-alphanumeric character replaced by `_` after snake-casing", "snake_case member names containing non-ASCII letters"),
+ "C16-8": ("shape_name of an Array takes its `Optional` prefix from the element", "sibling objects differing only in whether an array member is nullable: one name, two bodies"),
+ "C14-7": ("compile_json de-duplicates the path list before reading", "the same path listed twice where the second merge still matters (a union formed in between)"),
 }
 
 def main():
